@@ -653,7 +653,7 @@ Lemma round_open_ok tb mco st1 p3 : minv st1 -> ms_unit st1 = None ->
   round_res (round_open tb mco st1 p3) (length p3).
 Proof.
   intros Iv Hu. unfold Parser.round_open.
-  destruct (useRE2 (ms_o st1) && hd_is p3 63 && nth_is 1 p3 80 && nth_is 2 p3 61).
+  destruct (useRE2 (ms_o st1) && negb (ms_ign st1) && hd_is p3 63 && nth_is 1 p3 80 && nth_is 2 p3 61).
   { pose proof (python_backref_adv tb (ms_o st1) (skipn 3 p3)) as P. pose proof (skipn_le 3 p3) as SK.
     destruct (python_backref tb (ms_o st1) (skipn 3 p3)) as [[x q]|e q| | |]; cbn [pbind round_res]; try contradiction; try exact I; auto.
     destruct P as [P1 P2]. apply unit_then_ok; [exact Iv | exact P2 | lia]. }
